@@ -286,4 +286,20 @@ func init() {
 		Technique: "runtime monitoring: aliasing monitor on live pool blocks + Go race detector + differential signature oracle",
 		DesignRef: "DESIGN.md §3 C04",
 	})
+	add(Spec{
+		PropSpec: vlib.PropSpec{
+			ID: "C05", Level: "exploration",
+			Rule: "parser phase: inputs = well-formed constructed packets of the core stacks, their mutations, corpus inputs for Ethernet and for each core layer as first layer; layer sets = PRNG subsets of {Ethernet, Dot1Q, IPv4, IPv6, TCP, UDP, ICMPv4, ICMPv6, DNS, ARP, GRE, VXLAN, LLC, SNAP, Payload} (thorough: additionally all 256 subsets of the first 8, round robin); containers = map, sparse array, linear array and a user-written one. For each (input, set, container) DecodeLayers is compared with NewPacket(NoCopy, DecodeStreamsAsDatagrams): the reported types must be exactly the leading run of the packet's layers up to the first error layer or type outside the set (one layer shorter only where the packet contains the half-decoded layer of a decode function that adds its layer before returning the error, confirmed by calling the same DecodeFromBytes on the same bytes); every decoded layer object (last occurrence per type) must have the same exported field values (at every depth), contents and payload as the packet's layer (unexported scratch fields are not observable and not compared; flows are compared through their accessors); Truncated flags must agree; the four containers must agree on (types, error, truncated). stale phase: sequences of 100 packets (constructed with and without IP options, TCP options incl. MPTCP, VLAN, hop-by-hop, DNS, SCTP..., mutated, corpus) are decoded into the SAME layer objects and, each, into fresh objects: results and every decoded layer's signature must be equal. Non-trivial = >= 2 decoded layers; distinct by (input, set) hash.",
+			Assumptions: []string{"packets containing an IPv6 hop-by-hop layer are skipped in the layer-by-layer comparison: packet decoding shows that header as a layer of its own, the IPv6 decoding layer keeps it inside IPv6", "which error value the parser returns is not part of the property"},
+			Phases: []vlib.Phase{
+				{Name: "parser", Bin: "vchild", Quick: 16, Thorough: 16},
+				{Name: "stale", Bin: "vchild", Quick: 16, Thorough: 16},
+			},
+			Require: []string{"parser_comparisons", "reuse_comparisons"},
+		},
+		LevelText: "Runtime monitoring by differential execution: the preallocated-layer parser against full packet decoding of the same bytes (field-level signature comparison), across lookup containers, and reused against fresh layer objects over packet sequences.",
+		LevelNote: trusted,
+		Technique: "runtime monitoring: differential oracle (parser vs NewPacket; reused vs fresh objects) with canonical signatures",
+		DesignRef: "DESIGN.md §3 C05",
+	})
 }
